@@ -188,11 +188,10 @@ def run_case(data):
         if op == 'table-size':
             v = ch.pick([0, 64, 100, 4096, 8192, 300])
             if pending_size_change:
-                # hpack.Encoder replays every pending size change in order (64 then 0 exceeds the final
-                # limit 0) and drops the update when the same size is set twice before the next block:
-                # trusted-base limitations (DESIGN.md s1).  At most one change between two blocks.
-                r.excluded['second-table-size-change-before-next-block'] += 1
-                continue
+                # several changes before our next header block: the block must open with the smallest size and
+                # then the final one (RFC 7541 s4.2), never with a value above the limit the peer has by then
+                # (F36); the mirror decoder holds the last announced limit
+                r.labels.add('several-table-size-changes-before-next-block')
             pending_size_change = True
             last_size = v
             # alone, or in one SETTINGS frame with other settings on either side of it
@@ -430,6 +429,24 @@ def _f35():
     return keys
 
 
+def _f36():
+    """The peer changes HEADER_TABLE_SIZE several times before our next block: raise then lower, lower then raise."""
+    keys = []
+    for seq in ([8192, 100], [64, 0], [0, 4096], [8192, 64, 300]):
+        c = Solo(True)
+        c.start()
+        for v in seq:
+            c.feed(wire.settings([(wire.S_HEADER_TABLE_SIZE, v)]))
+            c.note_peer_settings([(wire.S_HEADER_TABLE_SIZE, v)])
+        o = c.call('send_headers', 1, req(Chooser(b''), b'/a'))
+        o2 = c.call('send_headers', 3, req(Chooser(b''), b'/a'))
+        for x in (o, o2):
+            if not x.ok or x.frames[0].f.get('headers') is None:
+                keys.append('C13:block-undecodable-by-peer')
+    return keys
+
+
 FINDINGS = {'F14-encoder-ahead-after-raising-call': _f14,
+            'F36-several-table-size-changes-listed-in-full': _f36,
             'F33-unencodable-header-text-desynchronises-hpack': _f33,
             'F35-repeated-header-table-size-drops-size-update': _f35}
